@@ -26,7 +26,7 @@ import (
 
 var Versions = []string{"0.13.2", "0.13.4", "0.14.0", "0.14.1"}
 
-func F(u uint64) felt.Felt { var f felt.Felt; f.SetUint64(u); return f }
+func F(u uint64) felt.Felt   { var f felt.Felt; f.SetUint64(u); return f }
 func FP(u uint64) *felt.Felt { f := F(u); return &f }
 
 func hexFelt(s string) felt.Felt {
@@ -39,9 +39,9 @@ func hexFelt(s string) felt.Felt {
 
 var feltPool = []felt.Felt{
 	F(0), F(1), F(2), F(3), F(255), F(256), F(65535), F(1 << 32),
-	hexFelt("0xffffffffffffffffffffffffffffffff"),                                  // 2^128-1
-	hexFelt("0x100000000000000000000000000000000"),                                 // 2^128
-	hexFelt("0x100000000000000000000000000000001"),                                 // 2^128+1
+	hexFelt("0xffffffffffffffffffffffffffffffff"),                                // 2^128-1
+	hexFelt("0x100000000000000000000000000000000"),                               // 2^128
+	hexFelt("0x100000000000000000000000000000001"),                               // 2^128+1
 	hexFelt("0x800000000000011000000000000000000000000000000000000000000000000"), // P-1
 	hexFelt("0x7ffffffffffffffffffffffffffffffffffffffffffffffffffffffffffffff"), // 2^251-1
 }
@@ -111,6 +111,9 @@ type Universe struct {
 	Sierra []*SierraInfo
 	Cairo0 []*Cairo0Info
 	EvKeys []felt.Felt
+	// EvAddrs, when non-empty, is the pool event emitters are drawn from instead of Addrs (large pools for busy blocks:
+	// the emitters need not be deployed contracts as far as block storage is concerned).
+	EvAddrs []felt.Felt
 }
 
 // MakeSierra builds a small Sierra class whose hashes are computed by juno's (trusted) class hashing.
@@ -245,7 +248,9 @@ func NewUniverse(t *rapid.T) *Universe {
 }
 
 // AllAddrs = ordinary + system addresses.
-func (u *Universe) AllAddrs() []felt.Felt { return append(append([]felt.Felt{}, u.Addrs...), u.System...) }
+func (u *Universe) AllAddrs() []felt.Felt {
+	return append(append([]felt.Felt{}, u.Addrs...), u.System...)
+}
 
 func (u *Universe) SierraByHash(h felt.Felt) *SierraInfo {
 	for _, s := range u.Sierra {
@@ -277,12 +282,15 @@ func (b *Block) Num() uint64 { return b.B.Number }
 
 // Opts biases generation.
 type Opts struct {
-	MaxTxs        int
-	MaxEvents     int
+	MaxTxs         int
+	MaxEvents      int
 	NoZeroToAbsent bool // exclude "zero write to a never-written slot" (known finding class)
-	FixedVersion  string
-	MinVersionIdx int
-	DenseEvents   bool
+	FixedVersion   string
+	MinVersionIdx  int
+	DenseEvents    bool
+	// BusyBlockOneIn > 0: one block in that many is busy (10..30 transactions with 2..5 events each), so that with large
+	// EvAddrs/EvKeys pools the block's events bloom has many hundreds of set bits.
+	BusyBlockOneIn int
 }
 
 // Chain is a generated chain with its model snapshots. Blocks[i].Num() == i.
@@ -295,6 +303,7 @@ type Chain struct {
 	Opt    Opts
 	forks  *uint64 // shared by all forks of one root chain: gives every fork its own nonce space
 	Frozen bool    // a per-process base chain shared between cases: forks of it start their own family
+	busy   bool    // the block being drawn is a busy block (see Opts.BusyBlockOneIn)
 }
 
 func NewChain(u *Universe, o Opts) *Chain {
@@ -669,7 +678,7 @@ func (c *Chain) DrawTx(t *rapid.T, version string) core.Transaction {
 		cd := Felts(3).Draw(t, "ccd")
 		ca := core.ContractAddress(&felt.Zero, &ch, &salt, cd)
 		dtx := &core.DeployAccountTransaction{
-			DeployTransaction: core.DeployTransaction{ContractAddressSalt: &salt, ContractAddress: &ca, ClassHash: &ch, ConstructorCallData: cd, Version: txVersion(1)},
+			DeployTransaction:    core.DeployTransaction{ContractAddressSalt: &salt, ContractAddress: &ca, ClassHash: &ch, ConstructorCallData: cd, Version: txVersion(1)},
 			TransactionSignature: sig, Nonce: ptr(Felt().Draw(t, "danonce")),
 		}
 		if kind == "deployacc1" {
@@ -741,7 +750,11 @@ func SetTxHash(tx core.Transaction, net *networks.Network) {
 
 func (c *Chain) DrawEvent(t *rapid.T) *core.Event {
 	u := c.U
-	from := rapid.SampledFrom(u.Addrs).Draw(t, "evfrom")
+	pool := u.Addrs
+	if len(u.EvAddrs) > 0 {
+		pool = u.EvAddrs
+	}
+	from := rapid.SampledFrom(pool).Draw(t, "evfrom")
 	nk := rapid.IntRange(0, 3).Draw(t, "nevkeys")
 	keys := make([]felt.Felt, nk)
 	for i := range keys {
@@ -755,6 +768,9 @@ func (c *Chain) DrawReceipt(t *rapid.T, tx core.Transaction) *core.TransactionRe
 	nev := rapid.IntRange(0, c.Opt.MaxEvents).Draw(t, "nev")
 	if c.Opt.DenseEvents && nev == 0 {
 		nev = 1
+	}
+	if c.busy {
+		nev = rapid.IntRange(2, 5).Draw(t, "nevBusy")
 	}
 	evs := make([]*core.Event, nev)
 	for i := range evs {
@@ -797,6 +813,12 @@ func (c *Chain) DrawReceipt(t *rapid.T, tx core.Transaction) *core.TransactionRe
 
 func (c *Chain) drawTxs(t *rapid.T, version string, d *core.StateDiff, tags map[string]bool) ([]core.Transaction, []*core.TransactionReceipt) {
 	n := rapid.IntRange(0, c.Opt.MaxTxs).Draw(t, "ntx")
+	c.busy = c.Opt.BusyBlockOneIn > 0 && rapid.IntRange(0, c.Opt.BusyBlockOneIn-1).Draw(t, "busyBlock") == 0
+	if c.busy {
+		n = rapid.IntRange(10, 30).Draw(t, "ntxBusy")
+		tags["busy-block"] = true
+		defer func() { c.busy = false }()
+	}
 	txs := make([]core.Transaction, n)
 	rs := make([]*core.TransactionReceipt, n)
 	// a quarter of the blocks carry transactions but no event at all (event count 0 with receipts present)
@@ -855,7 +877,6 @@ func DiffString(d *core.StateDiff) string {
 	}
 	return s
 }
-
 
 func cloneFelts(f []felt.Felt) []felt.Felt {
 	if f == nil {
